@@ -296,7 +296,15 @@ class Convention(abc.ABC, Generic[GridKind, Index]):
         ----------
         .. [1] `CF Conventions v1.10, 4.4 Time Coordinate <https://cfconventions.org/Data/cf-conventions/cf-conventions-1.10/cf-conventions.html#time-coordinate>`_
         """
+        # The bounds variable of a time coordinate is decoded to datetimes as well,
+        # but it is not a coordinate.
+        bounds_names = {
+            variable.attrs.get('bounds', variable.encoding.get('bounds'))
+            for variable in self.dataset.variables.values()
+        }
         for name in self.dataset.variables.keys():
+            if name in bounds_names:
+                continue
             variable = self.dataset[name]
             # xarray will automatically decode all time variables
             # and move the 'units' attribute over to encoding to store this change.
